@@ -47,7 +47,43 @@ const (
 	c7Err
 	c7Arr
 	c7Fail // an object whose marshaler fails after one member: its own content is not judged, the "<key>Error" field and everything around it is
+	// c7ReflFail: a reflected value whose (streaming) reflected encoder fails
+	// after it has written part of the value; only drawn when the leaves use
+	// such an encoder. Nothing of the value appears, its "<key>Error" does.
+	c7ReflFail
 )
+
+// c7poison is the value the streaming reflected encoder fails on.
+type c7poison struct{ N int }
+
+// c7streamEncoder is a zapcore.ReflectedEncoder that, unlike encoding/json,
+// writes as it goes: a failure leaves a partial value in the writer it was
+// given.
+type c7streamEncoder struct {
+	w  io.Writer
+	je *json.Encoder
+}
+
+func (e *c7streamEncoder) Encode(v any) error {
+	if p, ok := v.(c7poison); ok {
+		fmt.Fprintf(e.w, `{"r":[%d,`, p.N)
+		return fmt.Errorf("reflect-boom%d", p.N)
+	}
+	return e.je.Encode(v)
+}
+
+func c7newEncoder(console, stream bool) zapcore.Encoder {
+	cfg := encCfg()
+	if stream {
+		cfg.NewReflectedEncoder = func(w io.Writer) zapcore.ReflectedEncoder {
+			return &c7streamEncoder{w: w, je: json.NewEncoder(w)}
+		}
+	}
+	if console {
+		return zapcore.NewConsoleEncoder(cfg)
+	}
+	return zapcore.NewJSONEncoder(cfg)
+}
 
 // c7wild matches any value in the expected context.
 type c7wild struct{}
@@ -168,6 +204,8 @@ type c7world struct {
 	nodes  []*c7node
 	leaves []*c7leaf
 	base   []c7field // fields added by a lazy-with wrapper around the whole stack
+	// streamRefl: the leaves' encoders use a streaming reflected encoder
+	streamRefl bool
 }
 
 type c7op struct {
@@ -211,6 +249,8 @@ func (w *c7world) zapFields(fs []c7field) []zap.Field {
 			out = append(out, zap.Ints(f.key, []int{f.ival, f.ival + 1}))
 		case c7Fail:
 			out = append(out, zap.Object(f.key, c7failing{f.ival}))
+		case c7ReflFail:
+			out = append(out, zap.Reflect(f.key, c7poison{f.ival}))
 		}
 	}
 	return out
@@ -256,6 +296,8 @@ func c7expect(fs []c7field) []jkv {
 			out = append(out, jkv{f.key, []any{json.Number(strconv.Itoa(f.ival)), json.Number(strconv.Itoa(f.ival + 1))}})
 		case c7Fail:
 			out = append(out, jkv{f.key, c7wild{}}, jkv{f.key + "Error", fmt.Sprintf("boom%d", f.ival)})
+		case c7ReflFail:
+			out = append(out, jkv{f.key + "Error", fmt.Sprintf("reflect-boom%d", f.ival)})
 		case c7NS:
 			out = append(out, jkv{f.key, c7expect(fs[i+1:])})
 			return out
@@ -337,12 +379,15 @@ func (w *c7world) genFields(g *zsim.Stream, id int, allowMut bool, slogOnly bool
 	var out []c7field
 	for j := 0; j < n; j++ {
 		f := c7field{key: fmt.Sprintf("f%d_%d", id, j), ival: g.Draw(50)}
-		wts := []int{4, 3, 1, 2, 0, 2, 1, 2, 1}
+		wts := []int{4, 3, 1, 2, 0, 2, 1, 2, 1, 0}
+		if w.streamRefl {
+			wts[c7ReflFail], wts[c7Refl] = 2, 4
+		}
 		if allowMut {
 			wts[c7Mut] = 3
 		}
 		if slogOnly {
-			wts = []int{4, 3, 0, 0, 0, 0, 0, 0, 0}
+			wts = []int{4, 3, 0, 0, 0, 0, 0, 0, 0, 0}
 		}
 		f.kind = g.Weighted(wts...)
 		if f.kind == c7Mut {
@@ -367,14 +412,20 @@ func runC07(c *Ctx) {
 	if mutation {
 		w.muts = make([]int, 1+g.Draw(3))
 	}
+	// one run in four: the encoders use a streaming reflected encoder and some
+	// reflected values make it fail half-way
+	w.streamRefl = g.Chance(4)
+	if w.streamRefl {
+		c.R.Probe("streaming reflected encoder with values it fails on")
+	}
 	// ---- core stack ----
 	nLeaves := 1 + g.Weighted(4, 2, 1)
 	var cores []zapcore.Core
 	var stackDesc []string
 	for i := 0; i < nLeaves; i++ {
 		lf := &c7leaf{kind: g.Weighted(4, 2, 2)}
-		if mutation && lf.kind == 2 {
-			lf.kind = 0 // an observer keeps the marshaler itself, not its value
+		if (mutation || w.streamRefl) && lf.kind == 2 {
+			lf.kind = 0 // an observer keeps the marshaler (the reflected value) itself, not its encoding
 		}
 		// every leaf enables the levels the program logs at (info, warn), but
 		// not necessarily by a plain threshold: "low priority only" enablers
@@ -390,7 +441,7 @@ func runC07(c *Ctx) {
 		case 0, 1:
 			lf.sink = zsim.NewSimSink(r, fmt.Sprintf("leaf%d", i), 1, uint64(i)+5)
 			r.Label(unsafe.Pointer(lf.sink), lf.sink.Name)
-			cores = append(cores, zapcore.NewCore(newEncoder(lf.kind == 1), zapcore.Lock(lf.sink), enab))
+			cores = append(cores, zapcore.NewCore(c7newEncoder(lf.kind == 1, w.streamRefl), zapcore.Lock(lf.sink), enab))
 		case 2:
 			oc, logs := observer.New(enab)
 			lf.logs = logs
